@@ -76,6 +76,9 @@ int vp_harness_main(void) {
   uint8_t subst = vp_in_u8(); ASSUME(subst <= 1);
   uint8_t usenull = vp_in_u8(); ASSUME(usenull <= 1);
   if (usenull) ASSUME(n == 0);
+#ifdef KF_EXCLUDE_OUT_OF_RANGE
+  for (uint64_t i = 0; i < N; i++) if (i < n) ASSUME((uint32_t)sh[i] <= 0x10FFFF);   /* input class of known finding KF-C02-1, see props/C02.py */
+#endif
   src_t *in = (src_t *)vp_exact(n * sizeof(src_t));
   for (uint64_t i = 0; i < N; i++) if (i < n) in[i] = sh[i];
 
